@@ -2,7 +2,12 @@ package props
 
 import (
 	"bytes"
+	"fmt"
+	"os"
+	"path/filepath"
+	"runtime"
 	"strings"
+	"sync"
 	"testing"
 
 	"pault.ag/go/debian/control"
@@ -459,4 +464,116 @@ var specC08Encoder = Register(&Spec[EncCase]{
 
 func TestC08_Encoder(t *testing.T) {
 	specC08Encoder.Run(t, genEncCase, 10000, 60000)
+}
+
+// ------------------------------------------------------------------ independent writers at the same time
+
+// ConcWriteCase: several goroutines, each with paragraphs and a writer of its own.
+type ConcWriteCase struct {
+	Ps     []ParaVal `json:"ps"`
+	Rounds int       `json:"rounds"`
+}
+
+// yieldWriter is a writer the way files and sockets are writers: the goroutine may be descheduled
+// between the call and the moment the bytes are taken.
+type yieldWriter struct{ buf bytes.Buffer }
+
+func (y *yieldWriter) Write(p []byte) (int, error) {
+	runtime.Gosched()
+	return y.buf.Write(p)
+}
+
+var specC08Conc = Register(&Spec[ConcWriteCase]{
+	Prop: "C08", Name: "conc",
+	Rule: "4..8 paragraphs of the C08/write generator, one goroutine each; every goroutine writes ITS paragraph 40..120 times with WriteTo and through an Encoder, into a writer of its own that yields the processor before it takes the bytes (as a file or socket may), while the others do the same with theirs. Oracle: what each goroutine wrote reads back as its own paragraph every time (same fields, same logical lines) - nothing of a neighbour's; under the race detector no race is reported. Non-trivial: every case; distinct by case.",
+	Check: func(c ConcWriteCase, r *Recorder) error {
+		r.Case(jsonKey(c), true, fmt.Sprintf("goroutines:%d", len(c.Ps)))
+		if c.Rounds < 1 || c.Rounds > 5000 || len(c.Ps) < 2 {
+			return errf("HARNESS: bad case")
+		}
+		errs := make([]error, len(c.Ps))
+		var wg sync.WaitGroup
+		start := make(chan struct{})
+		for g := range c.Ps {
+			wg.Add(1)
+			go func(g int) {
+				defer wg.Done()
+				defer func() {
+					if p := recover(); p != nil {
+						errs[g] = errf("panic in goroutine %d: %v", g, p)
+					}
+				}()
+				want := c.Ps[g]
+				<-start
+				for k := 0; k < c.Rounds; k++ {
+					p := want.para()
+					var y yieldWriter
+					var werr error
+					if k%2 == 0 {
+						werr = p.WriteTo(&y)
+					} else {
+						enc, err := control.NewEncoder(&y)
+						if err != nil {
+							errs[g] = errf("NewEncoder: %v", err)
+							return
+						}
+						werr = enc.Encode(&p)
+					}
+					if werr != nil {
+						errs[g] = errf("goroutine %d round %d: write failed: %v", g, k, werr)
+						return
+					}
+					w := y.buf.String()
+					back, err := readParas(w)
+					if err != nil || len(back) != 1 {
+						errs[g] = errf("goroutine %d round %d (%d goroutines writing their own paragraphs at the same time): wrote %q for paragraph %v, which reads back as %d paragraphs (err %v)", g, k, len(c.Ps), w, want.Order, len(back), err)
+						return
+					}
+					if strings.Join(back[0].Order, "\x00") != strings.Join(want.Order, "\x00") {
+						errs[g] = errf("goroutine %d round %d (%d goroutines writing their own paragraphs at the same time): wrote %q, fields %q, its paragraph has %q", g, k, len(c.Ps), w, back[0].Order, want.Order)
+						return
+					}
+					for _, f := range want.Order {
+						if !sameUpToTrailingNewline(back[0].Values[f], want.Values[f]) {
+							errs[g] = errf("goroutine %d round %d (%d goroutines writing their own paragraphs at the same time): field %q = %q was written as %q", g, k, len(c.Ps), f, want.Values[f], w)
+							return
+						}
+					}
+				}
+			}(g)
+		}
+		close(start)
+		wg.Wait()
+		for _, e := range errs {
+			if e != nil {
+				return e
+			}
+		}
+		return raceLogError()
+	},
+})
+
+func TestC08_ConcRace(t *testing.T) {
+	specC08Conc.Run(t, func(t *rapid.T) ConcWriteCase {
+		c := ConcWriteCase{Rounds: rapid.IntRange(40, 120).Draw(t, "rounds")}
+		for n := rapid.IntRange(4, 8).Draw(t, "n"); n > 0; n-- {
+			c.Ps = append(c.Ps, genWriteCase(t).P)
+		}
+		return c
+	}, 40, 400)
+}
+
+// raceLogError: a data race report (binary built with -race, GORACE=log_path=...) is a violation.
+func raceLogError() error {
+	if lp := os.Getenv("VERIF_RACE_LOG"); lp != "" {
+		matches, _ := filepath.Glob(lp + "*")
+		for _, m := range matches {
+			b, _ := os.ReadFile(m)
+			if bytes.Contains(b, []byte("DATA RACE")) {
+				os.Remove(m)
+				return errf("data race reported while independent goroutines ran:\n%s", clip(b))
+			}
+		}
+	}
+	return nil
 }
